@@ -901,6 +901,11 @@ def getitem(it, obj, key):
             r = values_equal(it, k, key)
             if r is True or (r is not False and it.branch(r)):
                 return v
+        if getattr(obj, 'havocked', None) is not None:
+            # accumulator filled by a cut loop: the entry exists (assumption recorded) and is opaque
+            it.assumptions.add('dict accumulators filled per resource in the package phase have an entry for every '
+                               'resource name seen in the stream phase (names agree: C01 pairing)')
+            return _havocked_entry(it, obj, key)
         raise PyExc(ExcV('KeyError', (key,)))
     if isinstance(obj, (PyList, tuple)):
         items = obj.items if isinstance(obj, PyList) else obj
@@ -915,6 +920,8 @@ def getitem(it, obj, key):
             return getitem(it, PyList(obj.items), key)
         if isinstance(key, int) and key < 0 and -key <= len(obj.items):
             return obj.items[key]
+        if not obj.items and getattr(obj.prefix, 'at', None) is not None:
+            return obj.prefix.at(it, key)
         raise Unsupported('index into symbolic list')
     if isinstance(obj, Tree):
         return tree_get(it, obj, key, strict=True)
@@ -1078,6 +1085,8 @@ def tree_child(it, node, key):
         else:
             c = Tree('%s.%s' % (node.name, key))
             c.schema = getattr(node, 'subschema', {}).get(key, {})
+        if isinstance(c, Obj):
+            c.parent = node
         node.children[key] = c
         node.init_children[key] = c
     return node.children[key]
@@ -1241,11 +1250,24 @@ def kwargs_of(it, v):
     raise Unsupported('** of %r' % (v,))
 
 
+def _havocked_entry(it, d, key):
+    v = Opaque('dictval', 'acc[%s]' % (key,))
+    n = it.fresh('acc_len', IntS)
+    it.assume(n >= 0)
+    v.attrs['__len__'] = SV(n)
+    d.d[key] = v
+    return v
+
+
 def _pd_get(it, d, key, default=None):
     for k, v in d.d.items():
         r = values_equal(it, k, key)
         if r is True or (r is not False and it.branch(r)):
             return v
+    if getattr(d, 'havocked', None) is not None:
+        # contents unknown (filled by a cut loop / earlier history): the key may or may not be present
+        if it.decide(2, lambda i: True) == 0:
+            return _havocked_entry(it, d, key)
     return default
 
 
@@ -1627,7 +1649,14 @@ REGEX_METHODS = {'match': _re_match, 'fullmatch': _re_fullmatch, 'search': _re_s
 # ------------------------------------------------------------------------------------------------
 # opaque objects: effect calls
 
-OPAQUE_KINDS = {}     # kind -> {attr: maker(it, obj)}
+def _dictval_getitem(it, obj, key):
+    k = '__item_%s' % (key,)
+    if k not in obj.attrs:
+        obj.attrs[k] = Opaque('dictval', '%s[%s]' % (obj.name, key))
+    return obj.attrs[k]
+
+
+OPAQUE_KINDS = {'dictval': {'__getitem__': _dictval_getitem}}     # kind -> {attr: maker(it, obj)}
 OPAQUE_CALLS = {}     # (kind, method) -> handler(it, obj, args, kwargs) -> result
 
 
